@@ -285,9 +285,9 @@ def groups(tier: str):
                 add("L2R3z-%03d" % i, sh, 2)
     else:
         for i, sh in enumerate(cat23):
-            if len(sh) == 3 and _nsym(sh) <= 5:
+            if len(sh) == 3 and _nsym(sh) <= 4:
                 add("L2R3-%04d" % i, sh, 2, timeout=600.0)
-        cat33 = [sh for sh in shapes(3, 3, 2) if len(sh) == 3 and _nsym(sh) <= 4
+        cat33 = [sh for sh in shapes(3, 3, 2) if len(sh) == 3 and _nsym(sh) <= 3
                  and len({p for p, _ in sh} | {c for _, ch in sh for c in ch}) == 3]
         for i, sh in enumerate(cat33):
             add("L3R3-%04d" % i, sh, 2, timeout=600.0)
@@ -422,7 +422,7 @@ def meta(tier):
                      "reverse keys with negative shifts included) compared after every key; "
                      "every second of the 316 3-rule lists over 2 labels with <=3 shifts containing a 0-ary rule; shifts symbolic in [-2,2]; "
                      "the three test_forest universes with a window of 3 shifts symbolic within +-1 of the typed-in value",
-            "thorough": "all 3-rule lists over <=2 labels with <=5 shifts; 3-rule lists over exactly 3 labels with <=4 "
+            "thorough": "all 3-rule lists over <=2 labels with <=4 shifts; 3-rule lists over exactly 3 labels with <=3 "
                         "shifts; shifts in [-2,2]; 2-rule lists with shifts in [-3,3]; sliding windows over the test universes",
         }[tier],
         "outside": ["more labels/rules than stated", "|shift| larger than stated", "status() strings",
